@@ -2,6 +2,7 @@ package main
 
 import (
 	"fmt"
+	"go/constant"
 	"go/token"
 	"sort"
 	"strings"
@@ -220,16 +221,29 @@ func c03Matrix(rc *RuleCtx) {
 				cons := mk(fmt.Sprintf("%s setOwner", funcName(f)))
 				paths, complete := pathsTo(f, ci, 4000)
 				bad := !complete
-				for _, p := range paths {
-					ok := false
-					for _, fa := range p {
+				adminEstablished := func(facts []Fact) bool {
+					for _, fa := range facts {
 						if _, truth, k := callFact(fa, "IsAdmin"); k && truth {
-							ok = true
+							return true
 						}
 						if c, truth, k := callFact(fa, "HasFeature"); k && !truth {
 							if m, isC := constInt(callArgs(c)[0]); isC && m == featIdentityMgr(rc.C) {
-								ok = true // no identity manager: every user is the administrator
+								return true // no identity manager: every user is the administrator
 							}
+						}
+					}
+					return false
+				}
+				for _, p := range paths {
+					ok := adminEstablished(p)
+					// the test may live in an unexported predicate helper: every path of the helper that yields the outcome
+					// taken here must establish it
+					for _, fa := range p {
+						if ok {
+							break
+						}
+						if helperImplies(fa, adminEstablished) {
+							ok = true
 						}
 					}
 					if !ok {
@@ -576,4 +590,42 @@ func modeUsesViewUMask(v ssa.Value, recv ssa.Value) (bool, string) {
 	}
 	walk(v, 0)
 	return found, why
+}
+
+// helperImplies: the fact is the boolean outcome of a call to a package-internal predicate; every path through that
+// predicate that returns this outcome satisfies pred (on the predicate's own branch decisions).
+func helperImplies(fa Fact, pred func([]Fact) bool) bool {
+	v, truth := normCond(fa.Cond, fa.Truth)
+	call, ok := v.(*ssa.Call)
+	if !ok {
+		return false
+	}
+	callee := call.Call.StaticCallee()
+	if callee == nil || len(callee.Blocks) == 0 || callee.Pkg == nil || !strings.HasPrefix(callee.Pkg.Pkg.Path(), modPath) {
+		return false
+	}
+	if callee.Signature.Results().Len() != 1 {
+		return false
+	}
+	paths := evalPaths(callee, nil, 256)
+	if len(paths) == 0 || len(paths) >= 256 {
+		return false
+	}
+	matched := 0
+	for _, p := range paths {
+		conds := p.Conds
+		rv, ok := evalOnPath(p.Ret.Results[0], p.Blocks, nil, 0)
+		if !ok {
+			// the returned value is a residual boolean expression on this path: the outcome taken by the caller adds it
+			// as one more decision
+			conds = append(append([]Fact(nil), conds...), Fact{valueOnPath(p.Ret.Results[0], p.Blocks), truth, nil})
+		} else if rv.Kind() != constant.Bool || constant.BoolVal(rv) != truth {
+			continue
+		}
+		matched++
+		if !pred(conds) {
+			return false
+		}
+	}
+	return matched > 0
 }
